@@ -36,6 +36,7 @@ class Result:
     exhaustive: bool = True
     counters: dict = field(default_factory=dict)
     oracle_errors: list = field(default_factory=list)  # harness/oracle problems: check is broken, not violated
+    violation_counts: dict = field(default_factory=dict)
 
     def count(self, key: str, n: int = 1) -> None:
         self.counters[key] = self.counters.get(key, 0) + n
@@ -44,7 +45,10 @@ class Result:
         self.nontrivial.add(digest(obj))
 
     def violation(self, signature: dict, detail: dict, item: Any = None) -> None:
-        self.violations.append({"signature": signature, "detail": detail, "item": item})
+        key = digest(signature)
+        self.violation_counts[key] = self.violation_counts.get(key, 0) + 1
+        if self.violation_counts[key] <= 2:  # keep two witnesses per signature, count the rest
+            self.violations.append({"signature": signature, "detail": detail, "item": item})
 
     def merge(self, o: "Result") -> None:
         self.evaluations += o.evaluations
@@ -53,7 +57,11 @@ class Result:
         self.traces += o.traces
         self.nontrivial |= o.nontrivial
         self.outcomes |= o.outcomes
-        self.violations.extend(o.violations)
+        for v in o.violations:
+            if sum(1 for w in self.violations if digest(w["signature"]) == digest(v["signature"])) < 2:
+                self.violations.append(v)
+        for k, v in o.violation_counts.items():
+            self.violation_counts[k] = self.violation_counts.get(k, 0) + v
         if len(self.samples) < 12:
             self.samples.extend(o.samples[: 12 - len(self.samples)])
         self.exhaustive = self.exhaustive and o.exhaustive
@@ -125,11 +133,24 @@ def matches(entry: dict, signature: dict) -> bool:
     return all(signature.get(k) == v for k, v in entry["signature"].items())
 
 
+def _default_workers() -> int:
+    """16 cores; when other checks run concurrently (development), take a fair share instead of oversubscribing."""
+    try:
+        load = os.getloadavg()[0]
+    except OSError:
+        load = 0.0
+    if load > 24:
+        return 4
+    if load > 12:
+        return 8
+    return 16
+
+
 def main(module_name: str) -> int:
     parser = argparse.ArgumentParser()
     parser.add_argument("--tier", default=os.environ.get("VERIF_TIER", "quick"), choices=["quick", "thorough"])
     parser.add_argument("--replay", default=None)
-    parser.add_argument("--workers", type=int, default=int(os.environ.get("VERIF_WORKERS", "16")))
+    parser.add_argument("--workers", type=int, default=int(os.environ.get("VERIF_WORKERS", "0")) or _default_workers())
     parser.add_argument("--max-seconds", type=float, default=None)
     args = parser.parse_args(sys.argv[2:])
     seed = int(os.environ.get("VERIF_SEED", "0"))
@@ -201,9 +222,9 @@ def report(module: Any, total: Result, tier: str, seed: int, wall: float, n_item
                 hit = idx
                 break
         if hit is None:
-            unknown.append(vs[0] | {"count": len(vs)})
+            unknown.append(vs[0] | {"count": total.violation_counts.get(key, len(vs))})
         else:
-            matched_entries[hit] = matched_entries.get(hit, 0) + len(vs)
+            matched_entries[hit] = matched_entries.get(hit, 0) + total.violation_counts.get(key, len(vs))
     exit_code = 0
     for idx, n in sorted(matched_entries.items()):
         print(f"KNOWN-FINDING: property={pid} {known[idx]['text']} [{n} enumerated cases]")
